@@ -17,7 +17,7 @@ open Gzx Gzx.GoM Gzx.GridSampler Gzx.Perspective Gzx.K19 Gzx.Obligations.K19b
 /-- the environment of the sampler built from the regenerated callees (exact rationals; `S` = the list of `Set` calls) -/
 def envOf (img : Image) (t : PT Rat) (g : Int → Int → Bool) (fuel : Nat) : Gen.K19b.sampleGridWT_Env Rat (List (Int × Int)) where
   NewBitMatrix := fun _ _ => []
-  transform_TransformPoints := fun pts =>
+  PerspectiveTransform_TransformPoints := fun pts =>
     match Gen.K19.transformPoints ratOps t.a11 t.a21 t.a31 t.a12 t.a22 t.a32 t.a13 t.a23 t.a33 pts with
     | .ok r => r
     | .error _ => pts
@@ -25,10 +25,10 @@ def envOf (img : Image) (t : PT Rat) (g : Int → Int → Bool) (fuel : Nat) : G
     match Gen.K19.checkAndNudge ratOps fuel img.w img.h pts with
     | .ok r => r
     | .error _ => (true, pts)
-  image_GetWidth := img.w
-  image_GetHeight := img.h
-  image_Get := g
-  bits_Set := fun b x y => b ++ [(x, y)]
+  BitMatrix_GetWidth := img.w
+  BitMatrix_GetHeight := img.h
+  BitMatrix_Get := g
+  BitMatrix_Set := fun b x y => b ++ [(x, y)]
 
 /-- the `Set(x, y)` calls of one row of the model's result, columns numbered from `k` -/
 def setsRow (row : List Bool) (k : Nat) (y : Int) : List (Int × Int) :=
@@ -118,7 +118,7 @@ theorem checkAndNudge_length {w h : Int} {ps ps' : List Pt} (hc : checkAndNudge 
 
 when_kernel Gzx.Gen.K19.transformPoints in
 theorem env_transform (img : Image) (t : PT Rat) (g : Int → Int → Bool) (fuel : Nat) (pts : List Rat) :
-    (envOf img t g fuel).transform_TransformPoints pts = t.transformPoints pts := by
+    (envOf img t g fuel).PerspectiveTransform_TransformPoints pts = t.transformPoints pts := by
   show (match Gen.K19.transformPoints ratOps t.a11 t.a21 t.a31 t.a12 t.a22 t.a32 t.a13 t.a23 t.a33 pts with
     | .ok r => r | .error _ => pts) = _
   rw [Obligations.K19P.k_transformPoints_eq ratOps ratOps_fieldLike t pts]
@@ -166,8 +166,8 @@ theorem read_pairs (img : Image) (t : PT Rat) (g : Int → Int → Bool) (fuel :
     simp only [List.length_cons, readFrom, h0, h1, mapRes, readPoint, readPointG]
     have etr : ∀ x : Rat, ratOps.toInt x = trunc x := fun _ => rfl
     simp only [etr]
-    by_cases hc : trunc p.1 < 0 ∨ trunc p.2 < 0 ∨ trunc p.1 ≥ (envOf img t g fuel).image_GetWidth ∨
-        trunc p.2 ≥ (envOf img t g fuel).image_GetHeight
+    by_cases hc : trunc p.1 < 0 ∨ trunc p.2 < 0 ∨ trunc p.1 ≥ (envOf img t g fuel).BitMatrix_GetWidth ∨
+        trunc p.2 ≥ (envOf img t g fuel).BitMatrix_GetHeight
     · have hb : ((true && (decide (trunc p.1 < 0) || decide (trunc p.2 < 0))) || decide (trunc p.1 ≥ img.w) || decide (trunc p.2 ≥ img.h)) = true := by
         have hc' : trunc p.1 < 0 ∨ trunc p.2 < 0 ∨ trunc p.1 ≥ img.w ∨ trunc p.2 ≥ img.h := hc
         simp only [Bool.true_and, Bool.or_eq_true, decide_eq_true_eq]; omega
